@@ -50,13 +50,14 @@ def big(tier, name):
 
 
 # ------------------------------------------------------------------------------------------------ schedules
-def mk(kind, J, T, inacc, cap, nocopy, unit=None, ready=False, scribble=True, max_items=8, lens=None, steps=None, rnd=None, src="", slack=0):
+def mk(kind, J, T, inacc, cap, nocopy, unit=None, ready=False, scribble=True, max_items=8, lens=None, steps=None, rnd=None, src="", slack=0, shared=False, boundary=False, plan=None):
     div = 100 // (inacc or 25)
-    if T % div:
+    if T % div and not boundary:     # boundary: options the unchanged constructor refuses (interval below its minimum)
         raise ValueError("T must be a multiple of Div")
     return dict(kind=kind, J=J, T=T, inacc=inacc, Div=div, I=T // div if T else 0, cap=cap, nocopy=nocopy,
                 unit_ns=unit or (V1UNIT if kind == "v1" else MS), ready=ready, scribble=scribble, maxItems=max_items,
-                lens=lens or [0, 1, max(J - 1, 1), J, J + 1], steps=steps, rand=rnd, src=src, slack=slack)
+                lens=lens or [0, 1, max(J - 1, 1), J, J + 1], steps=steps, rand=rnd, src=src, slack=slack, shared=shared or bool(plan),
+                shared_lens=plan[0] if plan else [], shared_addr=plan[1] if plan else [])
 
 
 TIMINGS = [(0, 0), (4, 50), (4, 25), (4, 100), (4, 0), (6, 34), (6, 30), (2, 50), (1, 100)]   # (T units, inaccuracy)
@@ -80,7 +81,8 @@ def random_schedules(rng, n, kinds, weights, ready=False, timings=None, nocopy=N
         J = rng.choice(sizes)
         out.append(mk(kind, J, T, inacc, rng.choice(caps), nc, unit=unit, ready=ready, scribble=scribble,
                       max_items=max_items, rnd=dict(seed=rng.getrandbits(40), n=steps, w=w), src=src,
-                      slack=rng.choice([0, 0, 1, J, 2 * J]) if kind == "unite" else 0))     # producers reuse batch buffers: cap > len
+                      slack=rng.choice([0, 0, 1, J, 2 * J]) if kind == "unite" else 0,      # producers reuse batch buffers: cap > len
+                      shared=kind == "unite" and rng.random() < 0.4))                        # or send views into one table, out of address order
     return out
 
 
@@ -96,6 +98,10 @@ def directed_schedules(prop):
                     fill = ["W", "W"] * (2 + cap) + ["W"] * cap
                     steps = fill + ["A"] * block + ["R"] * (3 + cap) + ["W"] + ["A"] * (2 * T + 2) + ["R", "W", "W", "A", "R", "C", "A", "R", "R"]
                     out.append(mk("join", 2, T, inacc, cap, False, steps=steps, src="directed:blocked-write-then-short"))
+                    # v1: the output holds one slice, the second one blocks in the write
+                    fill1 = ["W", "W"] * 2 + ["W"] * cap
+                    steps1 = fill1 + ["A"] * block + ["R"] * 2 + ["W"] + ["A"] * (2 * T + 2) + ["R", "W", "W", "A", "R", "C", "A", "R", "R"]
+                    out.append(mk("v1", 2, T, inacc, cap, False, steps=steps1, src="directed:blocked-write-then-short"))
     if prop in ("C09", "C03"):
         # unite: the next input slice does not fit (overflow without an exact fill), the accumulated slice is delivered, and then
         # the input goes quiet: the remainder may only be flushed Timeout after THAT delivery
@@ -120,6 +126,27 @@ def directed_schedules(prop):
                     for nocopy in (False, True):
                         out.append(mk("join", 3, T, inacc, 0, nocopy, ready=True, steps=steps if not nocopy else [x for st in steps for x in ([st, "L"] if st == "R" else [st])],
                                       src="directed:arrival-between-expiry-and-tick"))
+    if prop in ("C10",):
+        # the acceptance boundary of the constructors: a Timeout whose ticker period Timeout/floor(100/inaccuracy) falls below what
+        # the constructor accepts (v1: 10 ms, v2: 1 ns).  The unchanged constructors refuse these options (trace: Reset, Rejected);
+        # a constructor that accepts them owes the bound of C10 like for any other options: one element, then silence
+        for kind, unit, combos in (("v1", MS, ((45, 1), (41, 5), (91, 5), (125, 2), (99, 10))), ("join", NS, ((50, 1), (99, 1), (7, 10))), ("unite", NS, ((50, 1), (7, 10)))):
+            for T, inacc in combos:
+                for nocopy in (False, True):
+                    w = "W1" if kind == "unite" else "W"
+                    steps = [w] + ["A"] * (T + T // (100 // inacc) + 14) + [w] + ["A"] * (T + 14) + ["C", "A", "R", "R"]
+                    out.append(mk(kind, 3, T, inacc, 0, nocopy, unit=unit, ready=True, steps=steps, src="directed:acceptance-boundary", boundary=True))
+    if prop in ("C03", "C08", "C11"):
+        # unite, the producer sends views into one table it filled beforehand, not in address order (a later view lies right behind
+        # an earlier one); the consumer of the copy mode writes into what it got, spare capacity included
+        for J, lens, addr in ((6, [2, 2, 2, 3, 3], [0, 2, 1, 3, 4]), (4, [1, 2, 1, 3, 1], [0, 2, 1, 4, 3]), (2, [3, 3, 1, 2, 2], [0, 1, 2, 3, 4]),
+                              (3, [4, 1, 1, 4, 3], [3, 0, 2, 1, 4]), (5, [2, 2, 2, 2, 2, 2], [0, 2, 4, 1, 3, 5])):
+            for T, inacc in ((0, 0), (4, 50)):
+                for nocopy in (False, True):
+                    for cap in (0, 3):
+                        rl = ["R", "L"] if nocopy else ["R"]
+                        steps = ["W"] * min(cap + 1, len(lens)) + rl + ["W", "W"] + rl + ["W", "W", "W"] + rl + ["A"] * (T + 2) + rl + ["C"] + rl * 4
+                        out.append(mk("unite", J, T, inacc, cap, nocopy, steps=steps, src="directed:shared-table", plan=(lens, addr), max_items=len(lens)))
     if prop in ("C11", "C03", "C09"):
         # reused batch buffers: empty and short slices with spare capacity >= JoinSize
         for J in (2, 3, 4):
@@ -464,8 +491,10 @@ def run_engine(v, tier, prop, design_jobs, make_schedules, level_note=""):
             ev = b["idx"]
             v.violation("%s: %s (trace %d, %s)" % (prop, b["msg"], tr, json.dumps(compact(t)["cfg"])),
                         dict(kind="join-lockstep", property=prop, finding=b, seed=seed(), schedule=scheds[tr - 1], trace=t))
-        drift = [tr for tr in traces if not strict.get(tr, (False, 0))[0]]
-        ok = [tr for tr in traces if tr not in bad_traces and tr not in drift]
+        refused = {tr for tr, t in traces.items() if any(r["ev"] == "Rejected" for r in t)}   # options the constructor refused: nothing ran
+        drift = [tr for tr in traces if not strict.get(tr, (False, 0))[0] and tr not in refused]
+        ok = [tr for tr in traces if tr not in bad_traces and tr not in drift and tr not in refused]
+        extra["options_refused_by_constructor"] = len(refused)
         rule_text, rule = RULES[prop]
         sigs = {signature(t) for t in traces.values() if rule(facts(t))}
         v.cov["evaluations"] += len(traces)
